@@ -299,6 +299,7 @@ class Sched:
 
     def _handoff(self, frm, to, site):
         self.switches += 1
+        self.ctx.switch_note(f"{self.nsteps}: {frm.name} -> {to.name} at {site}")
         self.current = to
         to.ev.set()
         frm.ev.wait()
